@@ -162,11 +162,18 @@ theorem no_fault_queries {n : Nat} {regs : Nat → List Nat} {s : St} (r : Reach
     (findC s v c).isSome ∧ (findLastC s v c).isSome ∧ (equalS s v w).isSome :=
   queries_total (reach_good r).inv (valid_facts hv).1 (valid_facts hw).1 ha hb hza hzb k needle skip c
 
+/-- the same for `startsWith`, `endsWith` and the searches with a start index (any `start`) -/
+theorem no_fault_queries_from {n : Nat} {regs : Nat → List Nat} {s : St} (r : Reach n regs s) {v w : Nat}
+    (hv : validVar s v = true) {a b : List Nat} (ha : allSome (absVar s v) = some a)
+    (hb : allSome (absVar s w) = some b) (hza : 0 ∉ a) (needle : List Nat) (c st : Nat) :
+    (startsWith s v w).isSome ∧ (endsWith s v w).isSome ∧ (findSFrom s v needle st).isSome ∧
+    (findOneOfFrom s v needle st).isSome ∧ (findCFrom s v c st).isSome :=
+  queries_total2 (reach_good r).inv (valid_facts hv).1 ha hb hza needle c st
+
 /- OPEN: the remaining read-only calls
-   toBool, hash, equalsIgnoreCase, the n-limited compareIgnoreCase: neither their results nor their absence
-   of faults are stated here; startsWith / endsWith and the start-index searches have result theorems below
-   but no fault theorem.  All of them are compared with the Python reference on every small argument by the
-   correspondence run (ASan, exactly sized buffers). -/
+   hash, compareIgnoreCase(other, n): neither their results nor their absence of faults are stated here;
+   equalsIgnoreCase and toBool have result theorems only.  They are compared with the Python reference on every
+   small argument by the correspondence run (ASan, exactly sized buffers). -/
 
 /-! ### query lemmas: the answers are the libc reference functions applied to the values -/
 
@@ -240,6 +247,22 @@ theorem compareN_IC_spec {n : Nat} {regs : Nat → List Nat} {s : St} (r : Reach
     have h2 : ∀ x ∈ b.map toLower, x ≠ 0 := by
       intro x hx; obtain ⟨y, hy, rfl⟩ := List.mem_map.mp hx; exact toLower_ne_zero (hzb y hy)
     exact ⟨strcmp_eq_zero h1 h2, strcmp_neg h1 h2⟩
+
+/-- `equalsIgnoreCase`: true iff the ASCII-lowered values are equal -/
+theorem equalsIgnoreCase_spec {n : Nat} {regs : Nat → List Nat} {s s' : St} (r : Reach n regs s) {v w : Nat}
+    (hv : validVar s v = true) (hw : validVar s w = true) {res : Bool} {a b : List Nat}
+    (e : equalsIC s v w = some (s', res)) (ha : allSome (absVar s v) = some a) (hb : allSome (absVar s w) = some b)
+    (hza : ∀ x ∈ a, x ≠ 0) (hzb : ∀ x ∈ b, x ≠ 0) :
+    (res = true ↔ a.map toLower = b.map toLower) ∧ ∀ u, absVar s' u = absVar s u :=
+  equalsIC_eq (reach_good r).inv (valid_facts hv).1 (valid_facts hw).1 e ha hb hza hzb
+
+/-- `toBool()`: false exactly for "", "0", "false" in any letter case, and for zeros around a single
+    decimal point with at least one zero; true for every other value -/
+theorem toBool_state_spec {n : Nat} {regs : Nat → List Nat} {s s' : St} (r : Reach n regs s) {v : Nat}
+    (hv : validVar s v = true) {res : Bool} {c : List Nat}
+    (e : toBool s v = some (s', res)) (hc : allSome (absVar s v) = some c) (hz : ∀ x ∈ c, x ≠ 0) :
+    (res = false ↔ toBoolFalse c) ∧ ∀ u, absVar s' u = absVar s u :=
+  toBool_eq (reach_good r).inv (valid_facts hv).1 e hc hz
 
 /-- the range `trim` keeps (as computed by the two scanning loops of the C++ code) is the value
     without its leading and trailing chars of the set -/
